@@ -10,6 +10,7 @@ case "$id" in
   *.r2) src="/tmp/mut2-$prop/SEEDED" ;;
   *.r3) src="/tmp/mut3-$prop/SEEDED" ;;
   *.r4) src="/tmp/mut4-$prop/SEEDED" ;;
+  *.r5) src="/tmp/mut5-$prop/SEEDED" ;;
   *)    src="/tmp/mut-$prop/SEEDED" ;;
 esac
 dst="seeded/$id"
